@@ -22,7 +22,7 @@
     loop  <in> <in> …                                      → <running|quit|died <display>> <consumed>
                                                                                in = exit | interrupt | code|<ok | exc spec>|<ok | exc spec>
     loopreq <rq> <rq> …                                    → <running|quit|died <display>> <consumed>      (the generated quit test)
-                                                                               rq = interrupt | req|<lines>|<ok | exc spec>|<ok | exc spec>      lines = ~ (no line) | hex,hex,…
+                                                                               rq = interrupt | raise|<exc spec> | req|<lines>|<ok | exc spec>|<ok | exc spec>      lines = ~ (no line) | hex,hex,…
     tty   <keyhex> …                                       → req <lines> <keys left> | waiting
     keys  <k> <lines>|<result>|<render> *k <keyhex> …      → <status> <tty calls> | no-outcome     (k outcomes by request; a request without an entry: no-outcome)
     msg   <arg> <arg> …                                    → ok <hex> | raise <display>      arg = s:<hex> | o:<hex> | x:<reprhex>:<exc spec>
@@ -141,6 +141,10 @@ def showReqLines (ls : List Str) : String :=
 def parseRequest (s : String) : Option Request :=
   if s == "interrupt" then some .interrupt
   else match s.splitOn "|" with
+    | ["raise", x] =>
+      match parseResult x with
+      | some (.error e) => some (.raises e)
+      | _ => none
     | ["req", ls, r, rd] =>
       match parseReqLines ls, parseResult r, parseResult rd with
       | some l, some a, some b => some (.lines l a b)
